@@ -11,3 +11,6 @@ open LhasaV.Props.C13
 #print axioms avail_nonincreasing
 #print axioms listing_work_linear
 #print axioms run_bounded
+#print axioms work_bounded
+#print axioms next_work_present
+#print axioms decoders_present
